@@ -1,7 +1,43 @@
-import Sucds.Props.C04
-/-! # C03 — SArray answers like the plain bit sequence (partial): SArray is an Elias-Fano sequence over the
-    positions of the set bits with universe = length; every query of that sequence is proved in C04. The glue
-    (the positions list is what `unary_iter(0)` yields and the builder accepts all of it) is in progress. -/
+import Sucds.Proofs.SArray
+import Sucds.Proofs.Rank9Full
+/-! # C03 — SArray (sparse bit vector) answers every query like the plain bit sequence
+
+For every bit sequence `bs` (length `< 2^64`, every density **including no set bit**), every build configuration
+and **every** argument: `SArray::from_bits` succeeds without panicking (the Elias-Fano builder accepts every set
+position yielded by `unary_iter(0)`), and both the structure as built and the one after `enable_rank()` return
+`access(i) = bs[i]` (`None` iff `i ≥ u`), `select1(k)` = position of the k-th one (`None` iff `k ≥ ones`),
+`num_bits = u`, `num_ones` = the true count; after `enable_rank()` also `rank1(i)` = ones in `bs[0..i)`,
+`rank0(i) = i − rank1(i)` (`None` iff `i > u`), `predecessor1(i)` = largest set position `≤ i` and
+`successor1(i)` = smallest set position `≥ i` (`None` iff `i ≥ u` or there is none). -/
 namespace Sucds.C03
-theorem elias_fano_queries : Sucds.C04.Statement := Sucds.C04.holds
+open Sucds Sucds.Spec
+
+abbrev bitOf (bs : List Bool) : Nat → Bool := fun j => bs.getD j false
+
+def Statement : Prop :=
+  ∀ (c : Cfg) (bs : List Bool), bs.length < 2^64 →
+    ∃ s, SA.fromBV c (BV.fromBits bs) = .ok s ∧ s.hasRank = false ∧
+      SA.PlainAnswers c s (bitOf bs) bs.length ∧
+      SA.PlainAnswers c (s.enableRank c) (bitOf bs) bs.length ∧
+      SA.RankAnswers c (s.enableRank c) (bitOf bs) bs.length
+
+theorem holds : Statement := by
+  intro c bs hn
+  have hinv := (BV.fromBits_spec bs).1
+  have hlen : (BV.fromBits bs).len = bs.length := BV.fromBits_len bs
+  have hbit : (BV.fromBits bs).bitAt = bitOf bs := funext (fun j => BV.fromBits_bitAt bs j)
+  have := SA.fromBV_answers c (BV.fromBits bs) hinv (by rw [hlen]; exact hn)
+  rw [hlen, hbit] at this
+  exact this
+
+/-- what the answer structures say, spelled out -/
+theorem plain_meaning (c : Cfg) (s : SA) (P : Nat → Bool) (n : Nat) (h : SA.PlainAnswers c s P n) :
+    s.numBits = n ∧ s.numOnes = cnt P n ∧
+    (∀ i, s.access c i = .ok (if i < n then some (P i) else none)) ∧
+    (∀ k, s.select1 c k = .ok (sel P n k)) := ⟨h.numBits, h.numOnes, h.access, h.select1⟩
+theorem rank_meaning (c : Cfg) (s : SA) (P : Nat → Bool) (n : Nat) (h : SA.RankAnswers c s P n) :
+    (∀ i, s.rank1 c i = .ok (if i ≤ n then some (cnt P i) else none)) ∧
+    (∀ i, s.rank0 c i = .ok (if i ≤ n then some (i - cnt P i) else none)) ∧
+    (∀ i, s.predecessor1 c i = .ok (if i < n then predP P i else none)) ∧
+    (∀ i, s.successor1 c i = .ok (if i < n then succP P n i else none)) := ⟨h.rank1, h.rank0, h.pred1, h.succ1⟩
 end Sucds.C03
